@@ -340,16 +340,80 @@ Fixpoint nack_chain (prev : Z) (l : list Z) : Prop :=
   | p :: l' => 0 <= p < 65536 /\ 1 <= (p - prev) mod 65536 <= 65520 /\ nack_chain p l'
   end.
 
-Definition nack_canonical (l : list Z) : Prop :=
-  match l with
-  | [] => True
-  | pid :: rest => 0 <= pid < 65536 /\ nack_chain pid rest
-  end.
-
 Lemma nack_chain_range prev l : nack_chain prev l -> Forall (fun p => 0 <= p < 65536) l.
 Proof.
   revert prev. induction l as [|p l IH]; intros prev H; [constructor|].
   destruct H as (Hp & _ & Hc). constructor; [exact Hp|eapply IH; eauto].
+Qed.
+
+(* numerically ascending lists of distinct numbers: what sorted(set) gives *)
+Fixpoint nack_ascending (prev : Z) (l : list Z) : Prop :=
+  match l with
+  | [] => True
+  | p :: l' => prev < p < 65536 /\ nack_ascending p l'
+  end.
+
+(* the exactness condition of the greedy packing itself: relative to the open FCI
+   entry `pid` whose set bits are all below `c`, the next number either lands on a
+   bit >= c of the same entry or opens a new entry *)
+Fixpoint nack_exact (pid c : Z) (l : list Z) : Prop :=
+  match l with
+  | [] => True
+  | p :: l' =>
+      0 <= p < 65536 /\
+      (if (p - pid - 1) mod 65536 <? 16
+       then c <= (p - pid - 1) mod 65536 /\ nack_exact pid ((p - pid - 1) mod 65536 + 1) l'
+       else nack_exact p 0 l')
+  end.
+
+Definition nack_canonical (l : list Z) : Prop :=
+  match l with
+  | [] => True
+  | pid :: rest => 0 <= pid < 65536 /\ nack_exact pid 0 rest
+  end.
+
+Lemma nack_exact_range l : forall pid c, nack_exact pid c l -> Forall (fun p => 0 <= p < 65536) l.
+Proof.
+  induction l as [|p l IH]; intros pid c H; [constructor|].
+  destruct H as (Hp & Hb). constructor; [exact Hp|].
+  destruct (_ <? 16); [destruct Hb as [_ Hb]|]; eapply IH; eauto.
+Qed.
+
+Lemma nack_chain_exact rest : forall pid c,
+  0 <= pid < 65536 -> 0 <= c <= 16 -> nack_chain ((pid + c) mod 65536) rest -> nack_exact pid c rest.
+Proof.
+  induction rest as [|p rest IH]; intros pid c Hpid Hc Hch; cbn [nack_exact]; [exact I|].
+  destruct Hch as (Hp & Hstep & Hch). split; [exact Hp|].
+  assert (Hdist : (p - pid - 1) mod 65536 = c + (p - (pid + c) mod 65536) mod 65536 - 1) by lia.
+  destruct (Z.ltb_spec ((p - pid - 1) mod 65536) 16) as [Hd|Hd].
+  - split; [lia|]. apply IH; [lia|lia|].
+    replace ((pid + ((p - pid - 1) mod 65536 + 1)) mod 65536) with p by lia. exact Hch.
+  - apply IH; [lia|lia|]. replace ((p + 0) mod 65536) with p by lia. exact Hch.
+Qed.
+
+Lemma nack_ascending_exact rest : forall pid c,
+  0 <= pid -> 0 <= c <= 16 -> pid + c < 65536 -> nack_ascending (pid + c) rest -> nack_exact pid c rest.
+Proof.
+  induction rest as [|p rest IH]; intros pid c Hpid Hc Hlast Hasc; cbn [nack_exact]; [exact I|].
+  destruct Hasc as (Hp & Hasc). split; [lia|].
+  assert (Hd : (p - pid - 1) mod 65536 = p - pid - 1) by lia. rewrite Hd.
+  destruct (Z.ltb_spec (p - pid - 1) 16) as [Hlt|Hge].
+  - split; [lia|]. apply IH; [lia|lia|lia|]. replace (pid + (p - pid - 1 + 1)) with p by lia. exact Hasc.
+  - apply IH; [lia|lia|lia|]. replace (p + 0) with p by lia. exact Hasc.
+Qed.
+
+(* sufficient conditions, as stated in the property *)
+Lemma nack_canonical_chain pid rest : 0 <= pid < 65536 -> nack_chain pid rest -> nack_canonical (pid :: rest).
+Proof.
+  intros Hp Hc. split; [exact Hp|]. apply nack_chain_exact; [lia|lia|].
+  replace ((pid + 0) mod 65536) with pid by lia. exact Hc.
+Qed.
+
+Lemma nack_canonical_ascending pid rest :
+  0 <= pid < 65536 -> nack_ascending pid rest -> nack_canonical (pid :: rest).
+Proof.
+  intros Hp Hc. split; [exact Hp|]. apply nack_ascending_exact; [lia|lia|lia|].
+  replace (pid + 0) with pid by lia. exact Hc.
 Qed.
 
 (* the bits of blp strictly below c, as offsets *)
@@ -403,18 +467,16 @@ Proof. reflexivity. Qed.
    number from pid), the last number being pid + c *)
 Lemma nack_entries_exact rest : forall pid blp c,
   0 <= pid < 65536 -> 0 <= c <= 16 -> 0 <= blp < 2 ^ c ->
-  nack_chain ((pid + c) mod 65536) rest ->
+  nack_exact pid c rest ->
   flat_expand (nack_entries pid blp rest) = nack_expand pid blp ++ rest.
 Proof.
   induction rest as [|p rest IH]; intros pid blp c Hpid Hc Hblp Hch; cbn [nack_entries].
   - unfold flat_expand. cbn [flat_map fst snd]. reflexivity.
-  - destruct Hch as (Hp & Hstep & Hch). rewrite land_65535.
-    assert (Hdist : (p - pid - 1) mod 65536 = c + (p - (pid + c) mod 65536) mod 65536 - 1).
-    { lia. }
+  - destruct Hch as (Hp & Hch). rewrite land_65535.
     destruct (Z.ltb_spec ((p - pid - 1) mod 65536) 16) as [Hd|Hd].
-    + assert (Hcd : c <= (p - pid - 1) mod 65536) by lia.
+    + destruct Hch as [Hcd Hch].
       assert (Hp' : (pid + ((p - pid - 1) mod 65536) + 1) mod 65536 = p) by lia.
-      remember ((p - pid - 1) mod 65536) as d eqn:Ed. clear Ed Hdist Hstep.
+      remember ((p - pid - 1) mod 65536) as d eqn:Ed. clear Ed.
       assert (Hpow : 2 ^ c <= 2 ^ d) by (apply Z.pow_le_mono_r; lia).
       rewrite (IH pid (Z.lor blp (Z.shiftl 1 d)) (d + 1)); try lia.
       * rewrite !nack_expand_offs, offs_lor_new by lia.
@@ -430,9 +492,33 @@ Proof.
         -- destruct (Z.eq_dec blp 0) as [->|Hb0]; [cbn; lia|].
            apply Z.lt_le_trans with d; [apply Z.log2_lt_pow2; lia|lia].
         -- rewrite Z.shiftl_mul_pow2, Z.mul_1_l, Z.log2_pow2 by lia. lia.
-      * replace ((pid + (d + 1)) mod 65536) with p by (rewrite <- Hp' at 1; f_equal; lia). exact Hch.
+      * exact Hch.
     + unfold flat_expand. cbn [flat_map fst snd]. fold (flat_expand (nack_entries p 0 rest)).
       rewrite (IH p 0 0); try lia.
       * reflexivity.
-      * replace ((p + 0) mod 65536) with p by lia. exact Hch.
+      * exact Hch.
+Qed.
+
+(* ================================================================ fuel of pack_remb_fci *)
+(* the stated fuel suffices for EVERY bitrate (also out-of-range ones): the
+   `while mantissa > 0x3FFFF` loop always terminates within it *)
+Lemma remb_loop_fuel_enough b : exists m e, remb_loop (remb_fuel b) b 0 = Ok (m, e).
+Proof.
+  destruct (Z_lt_ge_dec b 0) as [Hneg|Hpos].
+  - unfold remb_fuel. cbn [remb_loop]. destruct (Z.ltb_spec 262143 b); [lia|eauto].
+  - destruct (remb_fuel_enough b ltac:(lia)) as [H1 H2].
+    destruct (remb_loop_spec _ b 0 H1 H2) as (m & e & H & _). eauto.
+Qed.
+
+Lemma be32s_not_fuel l : be32s l <> OutOfFuel.
+Proof.
+  induction l as [|x l IH]; cbn [be32s]; [discriminate|].
+  destruct (u32ok x); [|discriminate]. destruct (be32s l); cbn [bind]; congruence.
+Qed.
+
+Lemma pack_remb_fci_fuel b ssrcs : pack_remb_fci b ssrcs <> OutOfFuel.
+Proof.
+  unfold pack_remb_fci. destruct (remb_loop_fuel_enough b) as (m & e & ->). cbn [bind].
+  destruct (_ && _); [|discriminate].
+  assert (H := be32s_not_fuel ssrcs). destruct (be32s ssrcs); cbn [bind]; congruence.
 Qed.
